@@ -30,7 +30,7 @@ WORK = os.path.join(VERIF, "work")
 REPLAYS = os.path.join(VERIF, "replays")
 EVIDENCE = os.path.join(VERIF, "evidence")
 CORPUS = os.path.join(VERIF, "corpus")
-REPO = "/repo"
+REPO = os.environ.get("VERIF_REPO", "/repo")
 NPROC = os.cpu_count() or 4
 
 ALLOWED_AXIOMS = {
